@@ -45,6 +45,9 @@ package templater
 // lists and maps: a compiled task never shares a list or map value with the task definition or with another call
 //@   ensures old(cache.err) == nil ==> nTrav == 1                                                               [C11,C18]
 //@ func ReplaceWithExtra$1
+// whatever the template text and whatever the engine reports about it - a parse error at any position, an execution
+// error - rendering ends with a value or an error, never with a panic (every command, variable and label goes through here)
+//@   nopanic                                                                                                    [C16]
 //@   init nParse := 0
 //@   site (*Template).Parse#0 requires arg1 == v                                                                [C19]
 //@   site (*Template).Parse#0 ghost nParse := nParse + 1
